@@ -56,6 +56,14 @@ pub fn c01(ctx: &mut Ctx) {
         match o { Outcome::Pass { .. } => Outcome::pass(ps_labels(&f), f.faults_observed_with_healthy_sibling > 0 && f.subs_received > 0), o => o }
     });
     if ctx.failed() { return; }
+    // the same under the strictly wake-driven executor: nothing papers over a flush that was skipped
+    let g = PsGen { faults: true, close: false, wake_only: true, max_len: 60 };
+    ctx.search("ps-with-failing-siblings-wake-only", move || ps::case_strategy(g), ctx.tier.pick(60_000, 2_000_000), true, |c: &PsCase| {
+        crate::core::watchdog::tick();
+        let (o, f) = ps::run_case(c);
+        match o { Outcome::Pass { .. } => Outcome::pass(ps_labels(&f), f.faults_observed_with_healthy_sibling > 0 && f.subs_received > 0), o => o }
+    });
+    if ctx.failed() { return; }
     // bounded-exhaustive small scope
     let alpha = ps::small_alphabet(false, false);
     let maxlen = ctx.tier.pick(6, 8);
@@ -368,6 +376,20 @@ pub fn c08(ctx: &mut Ctx) {
         crate::core::watchdog::tick();
         let (o, f) = ps::run_case(c);
         match o { Outcome::Pass { .. } => Outcome::pass(ps_fault_labels(&f), f.faults_observed_with_healthy_sibling > 0 && f.subs_received > 0), o => o }
+    });
+    if ctx.failed() { return; }
+    let g = PsGen { faults: true, close: false, wake_only: true, max_len: 60 };
+    ctx.search("ps-faults-wake-only", move || ps::case_strategy(g), ctx.tier.pick(60_000, 2_000_000), true, |c: &PsCase| {
+        crate::core::watchdog::tick();
+        let (o, f) = ps::run_case(c);
+        match o { Outcome::Pass { .. } => Outcome::pass(ps_fault_labels(&f), f.faults_observed_with_healthy_sibling > 0 && f.subs_received > 0), o => o }
+    });
+    if ctx.failed() { return; }
+    let g = RrGen { faults: true, close: false, wake_only: true, junk: false, big: false, many_repliers: true, max_len: 60, prelude: false };
+    ctx.search("rr-faults-wake-only", move || rr::case_strategy(g), ctx.tier.pick(60_000, 2_000_000), true, |c: &RrCase| {
+        crate::core::watchdog::tick();
+        let (o, f) = rr::run_case(c, RrOpts { probe: true });
+        match o { Outcome::Pass { .. } => Outcome::pass(rr_fault_labels(&f), f.faults_observed > 0 && (f.replies_delivered > 0 || f.probe_ok)), o => o }
     });
     if ctx.failed() { return; }
     let g = RrGen { faults: true, close: false, wake_only: false, junk: false, big: false, many_repliers: true, max_len: 60, prelude: false };
